@@ -250,6 +250,33 @@ var ruleModeGuard = &Rule{
 				out.viol(key, p.pos(s.Instr.Pos()), fnName(s.Fn), "a structural error is raised regardless of the mode: lax paths built from accessors must never fail ("+s.Text+")")
 			}
 		}
+		// the converse: an error of the non-suppressible class raised only where
+		// structural errors are reported (behind the flag or the strict-mode
+		// predicate) is a structural error with the wrong class
+		hord := ordinals{}
+		for _, s := range e.srcs {
+			if s.Class != "Hard" || s.Fn == nil || !scope[s.Fn] || s.Instr == nil || s.Instr.Block() == nil || p.isErrCtor(s.Fn) {
+				continue
+			}
+			structural := false
+			for _, f := range factsAt(s.Instr.Block()) {
+				if u, ok := f.Cond.(*ssa.UnOp); ok && u.Op == token.MUL && !f.Truth {
+					if fld, _ := p.execFieldOf(u.X); fld == ignore {
+						structural = true
+					}
+				}
+				if c, ok := f.Cond.(*ssa.Call); ok && p.modePredicate(c.Call.StaticCallee()) == "lax" && !f.Truth {
+					structural = true
+				}
+				if c, ok := f.Cond.(*ssa.Call); ok && p.modePredicate(c.Call.StaticCallee()) == "strict" && f.Truth {
+					structural = true
+				}
+			}
+			if structural {
+				out.viol(fmt.Sprintf("%s: structural error of the non-suppressible class #%d", fnName(s.Fn), hord.next(fnName(s.Fn))), p.pos(s.Instr.Pos()), fnName(s.Fn),
+					"an error raised only where structural errors are reported (behind "+ignore.Name()+" / the strict-mode test) wraps ErrExecution directly: WithSilent and filters no longer suppress it, although every structural error of an accessor is suppressible ("+s.Text+")")
+			}
+		}
 		out.Counts["guarded_structural_errors"] = nguard
 		out.Floors["guarded_structural_errors"] = 2
 		return out
@@ -260,7 +287,7 @@ func init() {
 	register(ruleModeGuard)
 	addProp(&PropSpec{
 		ID:          "C06",
-		Rules:       []string{"R-ENTRY", "R-PAIR-P", "R-PAIR-C", "R-EARLYEXIT", "R-STATUSFLOW", "R-COLLBLIND", "R-TWINRAISE"},
+		Rules:       []string{"R-ENTRY", "R-PAIR-P", "R-PAIR-C", "R-EARLYEXIT", "R-STATUSFLOW", "R-COLLBLIND", "R-TWINRAISE", "R-FOUNDKEPT", "R-COLLGUARD", "R-VARSIDENT"},
 		Explanation: "Agreement of the entry points as sibling agreement: Query, First and Match provably obtain their list from the same internal call and differ only in a post-processing table that is matched case by case; Exists runs the same core with a nil collector, which is only legal where strict mode re-collects; an error can never be turned into 'not found' on the way up (pair coherence and propagation).",
 		Decided: []string{"R-ENTRY: shared adapter/core and argument identity; post-processing tables of Query/First/Exists/Match; ExistsOrMatch dispatch; nil collectors only where strict re-collects or strictness is refuted; decision table of the evaluation core (strict re-collection answers from the emptiness of the complete list, failures propagate); no entry point writes Executor state its siblings do not",
 			"R-PAIR-P / R-PAIR-C: error ⇒ failed at every return; no error lost at a call site"},
@@ -336,6 +363,46 @@ var ruleOneLevel = &Rule{
 				}
 			}
 		}
+		// a function that hands its own slice, node and flag parameters on to an
+		// applier is an applier itself (`executeEachItem` in front of
+		// `executeAnyItem`)
+		isApp := map[*ssa.Function]bool{}
+		for _, a := range apps {
+			isApp[a.fn] = true
+		}
+		forwards := map[*ssa.Call]bool{}
+		for changed := true; changed; {
+			changed = false
+			for _, fn := range p.execFuncs() {
+				if isApp[fn] {
+					continue
+				}
+				for _, ap := range apps {
+					for _, c := range callsTo(fn, ap.fn) {
+						fq, ok1 := c.Call.Args[ap.flagI].(*ssa.Parameter)
+						nq, ok2 := c.Call.Args[ap.nodeI].(*ssa.Parameter)
+						if !ok1 || !ok2 || fq.Parent() != fn || nq.Parent() != fn || !types.Identical(nq.Type(), types.Type(p.A.Node)) {
+							continue
+						}
+						hasSlice := false
+						for _, a := range c.Call.Args {
+							if sq, ok := a.(*ssa.Parameter); ok {
+								if st, ok := sq.Type().Underlying().(*types.Slice); ok && types.IsInterface(st.Elem()) {
+									hasSlice = true
+								}
+							}
+						}
+						if !hasSlice || isApp[fn] {
+							continue
+						}
+						apps = append(apps, applier{fn, paramIndex(fq), paramIndex(nq)})
+						isApp[fn] = true
+						forwards[c] = true
+						changed = true
+					}
+				}
+			}
+		}
 		out.Counts["element_appliers"] = len(apps)
 		out.Floors["element_appliers"] = 1
 		n, nnext := 0, 0
@@ -343,6 +410,9 @@ var ruleOneLevel = &Rule{
 		for _, ap := range apps {
 			for _, caller := range p.execFuncs() {
 				for _, c := range callsTo(caller, ap.fn) {
+					if forwards[c] {
+						continue // the forwarder is judged at its own call sites
+					}
 					if q := p.ownNodeParam(c.Call.Args[ap.nodeI], 0); q == nil {
 						// moves on to another node: the mode alone decides
 						nnext++
